@@ -217,6 +217,7 @@ def c11_vocab(run):
     rf_vocab.rf85b(run)
     rf_vocab.rf115(run)
     rf_vocab.rf121(run)
+    rf_vocab.rf129(run)
 
 
 def c10_vocab(run):
@@ -249,6 +250,7 @@ def c17_rf2(run):
     rf_alloc.rf78b(run, units=('gen', 'mir'))
     rf_alloc.rf109(run)
     rf_alloc.rf122(run)
+    rf_alloc.rf130(run)
     run.min_instances('RF78b', 20)
 
 
@@ -325,6 +327,8 @@ def c01_rf18(run):
     rf_flow.rf67(run, units=('gen',))
     rf_x86.rf110(run)
     rf_flow.rf114(run)
+    rf_fold.rf48b(run)
+    rf_flow.rf131(run)
 
 
 def c04_rf18(run):
@@ -354,6 +358,7 @@ def c04_rf18(run):
     rf_inline.rf91(run)
     rf_inline.rf98(run)
     rf_inline.rf113(run)
+    rf_fold.rf48b(run)
     rf_fold.rf100(run)
     rf_flow.rf71(run, units=('mir',))
     run.min_instances('RF71', 3)
@@ -372,6 +377,7 @@ def c16_rf16(run):
     rf_inline.rf56(run)
     rf_proto.rf107(run)
     rf_proto.rf120(run)
+    rf_iface.rf31b(run)
     rf_proto.rf66(run)
     run.min_instances('RF66', 4)
     rf_x86.rf77(run)
@@ -403,6 +409,7 @@ def c14_rf16f(run):
     rf_proto.rf76(run)
     rf_proto.rf79(run)
     rf_iface.rf89(run)
+    rf_proto.rf128(run)
 
 
 def c02_rf7a(run):
@@ -483,6 +490,7 @@ def c05_rf10(run):
     rf_dispatch.rf7e(run, units=('gen',), expect=1)
     rf_dispatch.rf7f(run)
     run.min_instances('RF7f', 30)
+    rf_abi.rf126(run)
 
 
 def c06_rf10(run):
@@ -499,6 +507,7 @@ def c06_rf10(run):
     rf_dispatch.rf7f(run)
     run.min_instances('RF7f', 30)
     rf_abi.rf111(run)
+    rf_abi.rf127(run)
 
 
 def c02_rf9(run):
